@@ -114,6 +114,14 @@ def _special_texts(rng, pop):
         'time at 9:1* on all',
         'assign y [unknownfn 3]',
         'print "a" print "b" println 3',
+        'assign floor 2 kelvin {floor * 1000 + 500} set all',
+        'assign va [floor 2.5] kelvin {va * 1000} set all println [sqrt 16]',
+        'repeat with sqrt from 1 to 2 begin println sqrt end',
+        'println [round 7.6] hue [floor 100.9] set all',
+        'define lvl 40 brightness lvl set all',
+        'brightness lvl set all',
+        'define blink begin on all off all end blink',
+        'blink',
         'printf "{} {}" 1',
         '',
     ]
@@ -151,6 +159,14 @@ def gen(rng, tier, index):
     texts = []
     for _ in range(rng.randint(2, 5)):
         texts.append(_exec_text(rng, pop, tick))
+    # the same program shape with other printf formats: identical
+    # instruction addresses, different text
+    for t in list(texts):
+        if 'printf "' in t and rng.random() < 0.6:
+            v = t.replace('printf "k={kelvin} {}', 'printf "sat={saturation} [{}]')
+            v = v.replace('printf "{} and {} {kelvin}', 'printf "{1}/{0} {hue}')
+            if v != t:
+                texts.append(v)
     steps = []
     loaded = {}
     for j in range(n_jobs):
